@@ -155,6 +155,7 @@ type Plan struct {
 	Readers   int      `json:"readers"`
 	WriterOps []string `json:"writer_ops"` // executed by writer 1 in order
 	ConnOps   []string `json:"conn_ops"`   // executed by writer 2 in order
+	Pre       []string `json:"pre"`        // connections registered before the readers start (so that drops hit routes in use)
 	Jitter    []int    `json:"jitter"`     // Gosched counts between writer ops
 	Requests  int      `json:"requests"`   // per reader
 }
@@ -198,6 +199,10 @@ func doProbe(mux http.Handler, kind int, path, method string) int {
 	}
 }
 
+// longQuery makes the query-parsing step between route lookup and handler
+// lookup take long enough for a writer to publish a new state inside it.
+var longQuery = strings.Repeat("f_string=x&", 4000) + "f_int64=1"
+
 func CheckStress(p Plan) ([]evid.Violation, int) {
 	fixture.Setup()
 	fixture.Backends["B3"].Alt.Store(false)
@@ -208,10 +213,17 @@ func CheckStress(p Plan) ([]evid.Violation, int) {
 	if err := mux.VerifRegisterService(fixture.LocalDesc(), nil); err != nil {
 		panic(err)
 	}
+	for _, b := range p.Pre {
+		if err, pnc := apply(mux, "conn:"+b); err != nil || pnc != nil {
+			panic(fmt.Sprint("pre-registration of ", b, ": ", err, pnc))
+		}
+	}
 	var clock atomic.Int64      // logical clock
 	var okSeenAt atomic.Int64   // clock value at which a 200 for MultiOK was first fully observed (0 = never)
 	var writerBusy atomic.Int64 // >0 while a writer is inside an operation
 	var overlaps atomic.Int64
+	var writersLeft atomic.Int64
+	writersLeft.Store(2)
 	var mu sync.Mutex
 	var bad []string
 	report := func(f string, a ...any) {
@@ -231,7 +243,9 @@ func CheckStress(p Plan) ([]evid.Violation, int) {
 		wg.Add(1)
 		go func(r int) {
 			defer wg.Done()
-			for i := 0; i < p.Requests; i++ {
+			// readers keep going until both writers are done (a connection registration
+			// takes ~10 ms: a fixed request count would end before the first one completes)
+			for i := 0; i < p.Requests || (writersLeft.Load() > 0 && i < 20000); i++ {
 				select {
 				case <-stop:
 					return
@@ -264,9 +278,22 @@ func CheckStress(p Plan) ([]evid.Violation, int) {
 				if st := doProbe(mux, kind, tb.path, tb.method); st != 404 {
 					report("%s of the failing MultiBad registration answered %d (kind %d)", tb.path, st, kind)
 				}
+				// one consistent state per request: Solo has a single annotated binding and SvcD/SvcE/SvcC a
+				// single owner each, so every published state either routes the path to a handler (200) or
+				// does not know it (404); "route found but no handler" (501) needs two different states
+				if r%2 == 0 {
+					solo := []string{"/fxsolo/svcd", "/fxsolo/svce", "/fxsolo/svcc"}[(r/2+i)%3]
+					res := drive.Serve(mux, drive.Request("GET", solo, longQuery, nil, nil, 0))
+					evid.Count(fmt.Sprintf("single-binding-probe-status-%d", res.Rec.Code), 1)
+					if st := res.Rec.Code; st != 200 && st != 404 {
+						report("torn read: GET %s answered %d %q - its route was found in one state and its handler looked up in another", solo, st, trunc(res.Rec.Body.String()))
+					}
+				}
 				// conn-backed methods: served, absent or unimplemented - nothing else
 				tc := conn[(r+i)%len(conn)]
-				if st := doProbe(mux, kind, tc.path, tc.method); st != 200 && st != 404 && st != 501 {
+				st = doProbe(mux, kind, tc.path, tc.method)
+				evid.Count(fmt.Sprintf("conn-probe-status-%d", st), 1)
+				if st != 200 && st != 404 && st != 501 {
 					report("%s answered %d (kind %d)", tc.path, st, kind)
 				}
 			}
@@ -274,6 +301,7 @@ func CheckStress(p Plan) ([]evid.Violation, int) {
 	}
 	writer := func(ops []string, jit []int) {
 		defer wg.Done()
+		defer writersLeft.Add(-1)
 		for i, op := range ops {
 			for g := 0; g < jit[i%len(jit)]; g++ {
 				runtime.Gosched()
@@ -308,6 +336,9 @@ func CheckStress(p Plan) ([]evid.Violation, int) {
 	// after everything: a connection is routed iff its last operation registered it -
 	// a writer that finished successfully must not be overwritten by another writer
 	connected := map[string]bool{}
+	for _, b := range p.Pre {
+		connected[b] = true
+	}
 	for _, op := range p.ConnOps {
 		kind, b, _ := strings.Cut(op, ":")
 		connected[b] = kind == "conn"
@@ -336,6 +367,13 @@ func CheckStress(p Plan) ([]evid.Violation, int) {
 	return nil, int(overlaps.Load())
 }
 
+func trunc(s string) string {
+	if len(s) > 120 {
+		return s[:120]
+	}
+	return s
+}
+
 func TestPropStress(t *testing.T) {
 	rapid.Check(t, func(t *rapid.T) {
 		p := Plan{
@@ -361,10 +399,15 @@ func TestPropStress(t *testing.T) {
 		for i := 0; i < 4; i++ {
 			p.Jitter = append(p.Jitter, rapid.IntRange(0, 200).Draw(t, "jitter"))
 		}
+		for _, b := range []string{"B1", "B2", "B3"} {
+			if rapid.Bool().Draw(t, "pre"+b) {
+				p.Pre = append(p.Pre, b)
+			}
+		}
 		vs, overlaps := CheckStress(p)
 		key := ""
 		if overlaps > 0 {
-			key = fmt.Sprintf("p|%d|%v|%v|%v|%d", p.Readers, p.WriterOps, p.ConnOps, p.Jitter, p.Requests)
+			key = fmt.Sprintf("p|%d|%v|%v|%v|%d|%v", p.Readers, p.WriterOps, p.ConnOps, p.Jitter, p.Requests, p.Pre)
 		}
 		evid.Eval(key, "stress-plan")
 		evid.Count("requests-overlapping-a-writer-operation", int64(overlaps))
